@@ -39,7 +39,7 @@ func cmdSelftest(args []string) int {
 	os.WriteFile(empty, []byte(`{"inputs":{},"params":{}}`), 0o644)
 
 	// 1. conformance twins
-	for _, fn := range []string{"H_lex_vectors", "H_protowire_vectors", "H_script_vector"} {
+	for _, fn := range []string{"H_lex_vectors", "H_protowire_vectors", "H_script_vector", "H_vfs_vector"} {
 		exp, err := l.Run(engine.RunSpec{Fn: fn, Workers: 1, Fuel: 200_000_000, Collect: true}, "z3-new", 60000)
 		if err != nil {
 			fmt.Println("selftest", fn, "engine error:", err)
@@ -76,7 +76,7 @@ func cmdSelftest(args []string) int {
 	}
 
 	// 2. pinned-symbolic twins
-	for _, fn := range []string{"H_pinned_decode", "H_pinned_lex", "H_pinned_arith"} {
+	for _, fn := range []string{"H_pinned_decode", "H_pinned_lex", "H_pinned_arith", "H_pool_reuse"} {
 		exp, err := l.Run(engine.RunSpec{Fn: fn, Workers: 16, Fuel: 20_000_000}, "z3-new", 60000)
 		if err != nil {
 			fmt.Println("selftest", fn, "engine error:", err)
